@@ -158,6 +158,8 @@ class Program:
                     continue
                 if 'enum ' in txt:
                     self._scan_enums(txt)
+                if 'struct ' in txt:
+                    self._scan_structs(txt)
 
     def _scan_enums(self, txt):
         for m in re.finditer(r'^\s*(?:pub(?:\([^)]*\))?\s+)?enum\s+(\w+)[^{;]*\{', txt, re.M):
@@ -185,6 +187,36 @@ class Program:
             self.enums.setdefault(name, [])
             if vs not in self.enums[name]:
                 self.enums[name].append(vs)
+
+    def _scan_structs(self, txt):
+        for m in re.finditer(r'^\s*(?:pub(?:\([^)]*\))?\s+)?struct\s+(\w+)[^{;(]*\{', txt, re.M):
+            name = m.group(1)
+            i = m.end() - 1
+            try:
+                k = _match_brace(txt, i)
+            except ValueError:
+                continue
+            body = txt[i + 1:k]
+            body = re.sub(r'//[^\n]*', '', body)
+            body = re.sub(r'/\*.*?\*/', '', body, flags=re.S)
+            fs = []
+            for part in _split_commas(body):
+                part = part.strip()
+                while part.startswith('#['):
+                    part = part[_match_sq(part, 1) + 1:].strip()
+                mm = re.match(r'(?:pub(?:\([^)]*\))?\s+)?(\w+)\s*:', part)
+                if mm:
+                    fs.append(mm.group(1))
+            self.structs.setdefault(name, [])
+            if fs not in self.structs[name]:
+                self.structs[name].append(fs)
+
+    def field(self, struct, name):
+        """index of field `name` in struct `struct` (declaration order = MIR field index)"""
+        for fs in self.structs.get(struct, []):
+            if name in fs:
+                return fs.index(name)
+        raise KeyError(f'{struct}.{name}')
 
     # ---- lookups
     def variant_index(self, enum, variant):
